@@ -21,7 +21,7 @@ Theorem hand_modelled_sources_unchanged_C18 : PinsC18.pins = [
   ("src/pendulum/locales/locale.py::Locale.load"%string, "22b6cd98a552cebc3862"%string);
   ("src/pendulum/locales/locale.py::Locale.normalize_locale"%string, "db76aaecc1aad857fb40"%string);
   ("src/pendulum/interval.py::Interval.__new__"%string, "87853506c4af18f659e8"%string);
-  ("src/pendulum/interval.py::Interval.__init__"%string, "643448d9b6917a3f0edc"%string);
+  ("src/pendulum/interval.py::Interval.__init__"%string, "bf8b98f81fbc3c9ccb28"%string);
   ("src/pendulum/datetime.py::DateTime.diff"%string, "a731b945966b4b276cbc"%string)].
 Proof. exact eq_refl. Qed.
 Print Assumptions hand_modelled_sources_unchanged_C18.
